@@ -6,6 +6,7 @@ import (
 	"encoding/json"
 	"fmt"
 	"math"
+	"regexp"
 	"sort"
 	"strconv"
 	"strings"
@@ -319,8 +320,94 @@ func c28Classes(m map[string]bool) []string {
 	return l
 }
 
+// ---- listed finding (known_findings.json): "subsecond-duration" ----
+//
+// Signature, all three must hold:
+//   (1) the input text contains a duration literal whose total is below 500 ms (it rounds to 0 s),
+//   (2) the parsed tree carries a zero where the grammar only admits durations > 0: a matrix or subquery range of 0, or a 0
+//       element in an offset list,
+//   (3) the round trip fails exactly because the printed "0s" is rejected ("duration must be greater than 0").
+// Any other failure of such a case is still a violation.
+
+var c28DurRe = regexp.MustCompile(`(?:[0-9]+(?:ms|[smhdwy]))+`)
+var c28DurPartRe = regexp.MustCompile(`([0-9]+)(ms|[smhdwy])`)
+
+func c28HasSubsecondLiteral(src string) bool {
+	unit := map[string]float64{"ms": 1, "s": 1e3, "m": 60e3, "h": 3600e3, "d": 86400e3, "w": 7 * 86400e3, "y": 365 * 86400e3}
+	for _, lit := range c28DurRe.FindAllString(src, -1) {
+		total := 0.0
+		for _, m := range c28DurPartRe.FindAllStringSubmatch(lit, -1) {
+			n, _ := strconv.ParseFloat(m[1], 64)
+			total += n * unit[m[2]]
+		}
+		if total < 500 {
+			return true
+		}
+	}
+	return false
+}
+
+func c28HasZeroDuration(e Expr) bool {
+	found := false
+	var walk func(e Expr)
+	walk = func(e Expr) {
+		switch n := e.(type) {
+		case *AggregateExpr:
+			walk(n.Expr)
+			if n.Param != nil {
+				walk(n.Param)
+			}
+		case *BinaryExpr:
+			walk(n.LHS)
+			walk(n.RHS)
+		case *Call:
+			for _, a := range n.Args {
+				walk(a)
+			}
+		case *MatrixSelector:
+			if n.Range == 0 {
+				found = true
+			}
+			walk(n.VectorSelector)
+		case *SubqueryExpr:
+			if n.Range == 0 {
+				found = true
+			}
+			walk(n.Expr)
+		case *ParenExpr:
+			walk(n.Expr)
+		case *UnaryExpr:
+			walk(n.Expr)
+		case *VectorSelector:
+			for _, o := range n.OriginalOffsetEx {
+				if o == 0 {
+					found = true
+				}
+			}
+		}
+	}
+	walk(e)
+	return found
+}
+
+func c28KnownSubsecond(src string, p1 Expr, printed string, err error) bool {
+	return c28HasSubsecondLiteral(src) && c28HasZeroDuration(p1) &&
+		strings.Contains(err.Error(), "duration must be greater than 0") && strings.Contains(printed, "0s")
+}
+
+// c28Known: true when sig is listed in known_findings.json (recorded in the evidence when a collector is available).
+func c28Known(ev *vpEvidence, sig, what string) bool {
+	if !vpKnownListed("C28", sig) {
+		return false
+	}
+	if ev != nil {
+		ev.Known(sig, what)
+	}
+	return true
+}
+
 // c28Prop: strict=false is used for arbitrary strings (a rejected string is fine).
-func c28Prop(t vpT, c c28Case) (nontrivial bool, classes []string) {
+func c28Prop(t vpT, c c28Case, ev *vpEvidence) (nontrivial bool, classes []string) {
 	cls := map[string]bool{}
 	src := c.text()
 	p1, err := ParseExpr(src)
@@ -344,6 +431,11 @@ func c28Prop(t vpT, c c28Case) (nontrivial bool, classes []string) {
 		t.Fatalf("String() not deterministic for %q: %q then %q", src, s1, s1b)
 	}
 	p2, err := ParseExpr(s1)
+	if err != nil && c28KnownSubsecond(src, p1, s1, err) && c28Known(ev, "subsecond-duration",
+		"a duration that rounds to 0 s (e.g. m[0s400ms]) is accepted, printed as 0s and rejected on re-parse") {
+		cls["accepted"] = true
+		return false, c28Classes(cls)
+	}
 	if err != nil || p2 == nil {
 		t.Fatalf("accepted %q prints as %q which does not parse: %v\n tree %s", src, s1, err, d1)
 	}
@@ -1026,7 +1118,7 @@ func TestVerifC28Round(t *testing.T) {
 	rapid.Check(t, func(rt *rapid.T) {
 		c := c28GenRound().Draw(rt, "case")
 		vpRunCase(rt, "C28", "round", c, func() {
-			nt, cls := c28Prop(rt, c)
+			nt, cls := c28Prop(rt, c, ev)
 			ev.Case(nt, c.S, cls...)
 		})
 	})
@@ -1037,7 +1129,7 @@ func TestVerifC28Strings(t *testing.T) {
 	rapid.Check(t, func(rt *rapid.T) {
 		c := c28GenStrings().Draw(rt, "case")
 		vpRunCase(rt, "C28", "strings", c, func() {
-			_, cls := c28Prop(rt, c)
+			_, cls := c28Prop(rt, c, ev)
 			for i := range cls {
 				cls[i] = "strings:" + cls[i]
 			}
@@ -1058,18 +1150,24 @@ func FuzzVerifC28Parse(f *testing.F) {
 	}
 	f.Fuzz(func(t *testing.T, s string) {
 		c := c28Mk(s)
-		vpRunCase(t, "C28", "strings", c, func() { c28Prop(t, c) })
+		vpRunCase(t, "C28", "strings", c, func() { c28Prop(t, c, nil) })
 	})
 }
 
 func init() {
-	dec := func(t vpT, raw json.RawMessage) {
-		var c c28Case
-		if err := json.Unmarshal(raw, &c); err != nil {
-			t.Fatalf("decode: %v", err)
+	dec := func(sub string) func(t vpT, raw json.RawMessage) {
+		return func(t vpT, raw json.RawMessage) {
+			var c c28Case
+			if err := json.Unmarshal(raw, &c); err != nil {
+				t.Fatalf("decode: %v", err)
+			}
+			var ev *vpEvidence
+			if tb, ok := t.(testing.TB); ok {
+				ev = vpNewEv(tb, "C28", sub) // so that a listed finding met in a replay is reported by the driver
+			}
+			c28Prop(t, c, ev)
 		}
-		c28Prop(t, c)
 	}
-	vpReplayers["C28/round"] = dec
-	vpReplayers["C28/strings"] = dec
+	vpReplayers["C28/round"] = dec("round")
+	vpReplayers["C28/strings"] = dec("strings")
 }
